@@ -239,7 +239,7 @@ pub fn run(ctx: &mut Ctx) {
     for (n, ok) in r9::selftest(ctx.shard == 0) {
         ctx.selftest(&n, ok);
     }
-    ctx.require(&["annex_kat", "honest_keys_equal", "tampered_keys_differ", "responder_rejects_offcurve_RA", "initiator_rejects_offcurve_RB", "tamper=RaOther", "tamper=RbOther", "tamper=RaBitflipOnCurve", "tamper=RbNeg", "klen=1", "klen=128", "parties_have_public_master_key_only", "sparse_ephemeral_scalars", "kdf_direct", "ke=H1(id)_doubling_in_Q", "sk_all_zero_retry_path", "crafted_valid_R_A", "id_beyond_2^16_bits", "same_id_both_parties", "many_calls_one_process", "id_length_sweep"]);
+    ctx.require(&["annex_kat", "honest_keys_equal", "tampered_keys_differ", "responder_rejects_offcurve_RA", "initiator_rejects_offcurve_RB", "tamper=RaOther", "tamper=RbOther", "tamper=RaBitflipOnCurve", "tamper=RbNeg", "klen=1", "klen=128", "parties_have_public_master_key_only", "sparse_ephemeral_scalars", "kdf_direct", "ke=H1(id)_doubling_in_Q", "sk_all_zero_retry_path", "crafted_valid_R_A", "id_beyond_2^16_bits", "same_id_both_parties", "many_calls_one_process", "id_length_sweep", "id_with_nul_bytes"]);
     let pr = r9::params();
     let mut paux = ctx.prng("aux");
     if ctx.shard == 0 {
@@ -264,6 +264,22 @@ pub fn run(ctx: &mut Ctx) {
                 ctx.class(&format!("crafted:{}", name));
                 responder_with_point(ctx, &ke, b"Alice", b"Bob", klen, &pt, &r_b, "crafted_valid_R_A");
             }
+        }
+    }
+    // --- identities containing NUL bytes, trailing blanks or newlines, non-UTF-8 bytes (hashed exactly as given)
+    {
+        let mut pl = ctx.prng("nul_ids");
+        let ids = [b"Bob\0".to_vec(), b"\0Bob".to_vec(), b"Bo\0b".to_vec(), vec![0u8], vec![0u8; 4], b"Bob\0\0".to_vec(), b"Bob ".to_vec(), b" Bob".to_vec(), b"Bob\n".to_vec(), vec![0xffu8, 0xfe, 0x80]];
+        for k in 0..ids.len() {
+            let sub = pl.next();
+            if !ctx.mine(k as u64) {
+                continue;
+            }
+            let mut p = Prng::new(sub, "ni");
+            let ke = rand_scalar(&mut p, &(&pr.n - 1u32));
+            let (ra, rb) = (rand_scalar(&mut p, &(&pr.n - 1u32)), rand_scalar(&mut p, &(&pr.n - 1u32)));
+            ctx.class("id_with_nul_bytes");
+            history(ctx, &ke, &ids[k], &ids[(k + 3) % ids.len()], 16, &ra, &rb, Tamper::None, &mut p);
         }
     }
     // --- identity lengths 0..=130 for either party (inputs of H1 and of the KDF take every residue modulo the hash block)
